@@ -31,7 +31,7 @@ def plan(tier, seed):
 
 def floors(tier):
     strata = ["%s/%s" % (a, c) for a in ("overlap", "simple") for c in ("fits", "split-2", "split-3+")] + \
-             ["overlap/wide-label", "overlap/le2-labels-unfit", "none/no-split-expected", "overlap/no-split-expected", "engine-reported-layering", "engine-reconfigured", "engine-recompute-after-in-place-changes", "engine-with-another-engine-alive", "engine-with-stale-labels"]
+             ["overlap/wide-label", "overlap/le2-labels-unfit", "none/no-split-expected", "overlap/no-split-expected", "engine-reported-layering", "engine-reconfigured", "engine-recompute-after-in-place-changes", "engine-with-another-engine-alive", "engine-with-stale-labels", "punted-coincident-labels-sharing-a-payload-object"]
     return {"evaluations": 800, "strata": strata, "events": {"Distributor.distribute": 800, "Force.compute": 300}, "distinct_nontrivial": 150}
 
 
@@ -67,6 +67,20 @@ def gen_direct(rng):
 def judge_one(ctx, labels_nodes, layers, algo, lw, dens, sp, sw, case, force=None):
     probs, info = OLY.judge_layering(labels_nodes, layers, algo, lw, dens, sp, sw)
     stratum = "%s/%s" % (algo, info.get("class", "?"))
+    if info.get("n_layers", 0) >= 2:
+        seen = set()
+        for L in layers[1:]:
+            for n in L:
+                if not n.isStub() and n.data is not None:
+                    k = (n.idealPos, id(n.data))
+                    if k in seen:
+                        # two labels beyond the first layer at one data position with one payload object (seeded/C04o)
+                        ctx.stratum("punted-coincident-labels-sharing-a-payload-object", generated=1, judged=1, held=0 if probs else 1)
+                        seen = None
+                        break
+                    seen.add(k)
+            if seen is None:
+                break
     if force is not None and not probs:
         p2 = OLY.judge_reported(force.getLayers(), layers)
         ctx.stratum("engine-reported-layering", generated=1, judged=1, held=0 if p2 else 1)
